@@ -462,6 +462,11 @@ fn project_result(fr: &ParseFileResult<PathBuf>, parse_stage: Option<&ParseFileR
                 synt = true;
             }
         }
+        // ... or does its wording say so (a diagnostic whose range was moved away from the error location is still a
+        // syntax diagnostic; one whose wording AND range were both changed is not recognised any more)
+        if locs.is_some() && dv["tag"] == "syntax" {
+            synt = true;
+        }
         dv["synt"] = json!(synt);
         ds.push(dv);
     }
